@@ -346,6 +346,18 @@ fn violate(r: &mut Prng, node: &mut Value) -> Option<&'static str> {
             m.insert(s("initSize"), inum(*r.pick(&[0, 3])));
             Some("initSize outside bounds")
         }
+        ("anon map", 4) => {
+            m.remove("maxSize");
+            m.insert(s("minSize"), inum(2));
+            m.insert(s("initSize"), inum(*r.pick(&[0, 1])));
+            Some("initSize below a one-sided minSize")
+        }
+        ("anon map", 7) => {
+            m.remove("minSize");
+            m.insert(s("maxSize"), inum(3));
+            m.insert(s("initSize"), inum(*r.pick(&[4, 5])));
+            Some("initSize above a one-sided maxSize")
+        }
         ("array", 1) | ("anon map", 3) | ("optional", 1) => {
             m.remove("valueType");
             Some("valueType missing")
